@@ -3,9 +3,9 @@ CONSTANTS
   Callers <- MC_Callers
   Three = TRUE
   MaxEst = 2
-  MaxFaults = 3
+  MaxFaults = 2
   AllowClose = FALSE
   AllowSplit = TRUE
-  StartCached = TRUE
+  StartCached = FALSE
   MarkBeforePut = TRUE
 INVARIANTS NoPanic OneEstablisher EstablisherOnlyWhileUnavailable StableEnd
